@@ -337,10 +337,13 @@ impl<Sink: TokenSink> Tokenizer<Sink> {
     // NB: this doesn't set the current input character.
     fn eat(&self, input: &BufferQueue, pat: &str, eq: fn(&u8, &u8) -> bool) -> Option<bool> {
         if self.ignore_lf.get() {
-            self.ignore_lf.set(false);
-            if self.peek(input) == Some('\n') {
-                self.discard_char(input);
+            match self.peek(input) {
+                // The line feed of a CR LF pair may only arrive with the next chunk.
+                None if !self.at_eof.get() => return None,
+                Some('\n') => self.discard_char(input),
+                _ => (),
             }
+            self.ignore_lf.set(false);
         }
 
         input.push_front(mem::take(&mut self.temp_buf.borrow_mut()));
